@@ -65,6 +65,7 @@ class ExecutorWithDependencies(ExecutorBase):
         super().__init__(max_cores=kwargs.get("max_cores", None))
         executor = create_executor(*args, **kwargs)
         self._default_cores = executor._default_cores
+        self._default_threads_per_core = executor._default_threads_per_core
         self._spawner = executor._spawner
         self._set_process(
             RaisingThread(
@@ -219,6 +220,10 @@ def create_executor(
             max_cores=max_cores,
             max_workers=max_workers,
             cores_per_worker=cores_per_worker,
+            # the local backend does not hand the threads per core to the worker, they are not accounted there
+            threads_per_core=(
+                1 if backend == "local" else resource_dict.get("threads_per_core", 1)
+            ),
         )
     resource_dict["cache_directory"] = cache_directory
     resource_dict["hostname_localhost"] = hostname_localhost
